@@ -58,6 +58,10 @@ fn main() {
         let mut occ: std::collections::BTreeMap<&str, usize> = Default::default();
         let mut idx = 0usize;
         for st in &def.steps {
+            if let Step::AddRm(..) = st {
+                idx += 1;
+                continue;
+            }
             if let Step::Add(n, _) | Step::AddU(n, _) = st {
                 let o = *occ.get(n).unwrap_or(&0);
                 occ.insert(n, o + 1);
